@@ -232,7 +232,14 @@ func runCrashWorkload(base string, w c05workload, rep *hx.Report, cf *hx.CasesFi
 		cr := &crashRun{outDir: out, snapRoot: filepath.Join(dir, fmt.Sprintf("snaps_%d_%d", p.depth, resumed)), rng: r.Fork(uint64(resumed)), flushProb: 35, maxSnaps: 40, active: true}
 		verifhook.Set(cr.handler)
 		var recvSkipped, sendSkipped sync.Map
-		res := runXfer(src, out, xferCfg{chunkSize: w.cs, streams: w.streams, resume: true, timeout: 8 * time.Second,
+		csRun := w.cs
+		if p.depth > 0 && cr.rng.Intn(3) == 0 {
+			// the sender picks its chunk size per run: a resumed fetch may come with another one,
+			// and metadata recorded for the old geometry must then not be applied
+			csRun = []int{w.cs*2 + 1, w.cs + 1, w.cs * 2}[cr.rng.Intn(3)]
+			rep.Count("resume-with-other-chunk-size")
+		}
+		res := runXfer(src, out, xferCfg{chunkSize: csRun, streams: w.streams, resume: true, timeout: 8 * time.Second,
 			recvOpts: func(o *transfer.Options) {
 				o.ResumeStatsFn = func(rel string, skipped, total, verified uint32, totalBytes int64, cs uint32) {
 					recvSkipped.Store(rel, skipped)
@@ -272,7 +279,10 @@ func runCrashWorkload(base string, w c05workload, rep *hx.Report, cf *hx.CasesFi
 					want++
 				}
 			}
-			if v, ok := recvSkipped.Load(rel); ok && want > 0 && sv.fileSize == int64(len(byRel[rel])) && int(sv.chunkSize) == w.cs {
+			if v, ok := recvSkipped.Load(rel); ok && want > 0 && int(sv.chunkSize) != csRun && v.(uint32) > 0 {
+				rep.Violate("foreign-geometry-advertised", fmt.Sprintf("%s: metadata recorded for chunk size %d was advertised (%d chunks) to a run with chunk size %d", rel, sv.chunkSize, v.(uint32), csRun), map[string]any{"workload": fmt.Sprintf("%+v", w), "from": p.label})
+			}
+			if v, ok := recvSkipped.Load(rel); ok && want > 0 && sv.fileSize == int64(len(byRel[rel])) && int(sv.chunkSize) == csRun {
 				if v.(uint32) != want {
 					rep.Violate("advertised-differs", fmt.Sprintf("%s: metadata marks %d chunks, receiver advertised %d", rel, want, v.(uint32)), map[string]any{"workload": fmt.Sprintf("%+v", w), "from": p.label})
 				}
